@@ -101,8 +101,19 @@ def chunkings(rng, stream, tier):
         for i in range(n + 1):
             for j in range(i, n + 1):
                 out.append([stream[:i], stream[i:j], stream[j:]])
-    out.append([stream[i:i + 1] for i in range(n)])                 # byte by byte
+    if n <= 3000:
+        out.append([stream[i:i + 1] for i in range(n)])             # byte by byte
     out.append([stream[i:i + 120] for i in range(0, n, 120)])       # recv(120)
+    if n > 100:
+        # long unterminated input: cuts at the end of the noise and fixed read sizes around every
+        # plausible buffer limit
+        first_nl = stream.find(b"\n")
+        for size in (64, 100, 255, 256, 257, 1000, 1024, 4096, 65536):
+            if size < n:
+                out.append([stream[i:i + size] for i in range(0, n, size)])
+        for back in (0, 1, 17, 18):
+            cut = max(0, first_nl - back)
+            out.append([stream[:cut], stream[cut:]])
     out.append([b"", stream, b""])
     for _ in range(4):
         cuts = sorted(rng.randrange(n + 1) for _ in range(rng.randrange(1, 8)))
@@ -120,6 +131,16 @@ def part_framing(res, rng, driver, tier):
     streams += [gen_stream(rng, rng.randrange(1, 4)) for _ in range(60 if tier == "quick" else 400)]
     streams += [gen_stream(rng, rng.randrange(4, 9)) for _ in range(40 if tier == "quick" else 400)]
     streams += [gen_stream(rng, rng.randrange(20, 60)) for _ in range(15 if tier == "quick" else 150)]
+    # lines far longer than any real frame (noise without a terminator, then a frame): the segments are
+    # still the newline-terminated ones, whatever the read sizes
+    frame = b"1;255;0;0;17;2.2\n"
+    lengths = [101, 121, 127, 128, 129, 255, 256, 257, 300, 511, 513, 1023, 1025, 2049, 4097, 8193]
+    if tier != "quick":
+        lengths += [16385, 65537, 200001]
+    for L in lengths:
+        noise = bytes(rng.choice(b"abcxyz;0123456789 ") for _ in range(L))
+        streams.append(noise + frame + rng.choice([b"", b"2;255;0;0;17;2.2\n", b"tail"]))
+        streams.append(frame + noise + frame)
     ops, impl, cases = [], [], []
     classes = ["base", "async", "asynctcp"]
     k = 0
@@ -562,7 +583,7 @@ def judge_flavours(res, version, toks, label):
 
 
 def part_flavours(res, rng, driver, tier):
-    nh = 45 if tier == "quick" else 700
+    nh = (45 if tier == "quick" else 700) * common.effort(tier)
     ops, impl, cases = [], [], []
 
     def add_model(version, toks, sync, a_em, a_state):
@@ -632,7 +653,7 @@ def end_to_end(version, chunks, cls_name):
 
 
 def part_end_to_end(res, rng, tier):
-    n = 50 if tier == "quick" else 500
+    n = (50 if tier == "quick" else 500) * common.effort(tier)
     for i in range(n):
         version = rng.choice(["1.4", "2.0", "2.2", "2.1"])
         hist = G.gen_history(rng, version, 30, persist=False, ota=False, sleep=True, malformed=0.2)
